@@ -2,6 +2,7 @@
 import OFV.Core.Json
 import OFV.Model.C20
 import OFV.Model.C20Files
+import OFV.Model.C20Mol
 
 namespace OFV
 namespace Handlers
@@ -67,6 +68,23 @@ def step (nt : NumTables) (fs : FS) (j : Json) : Except String (FS × Json) := d
     | .error e => .ok (fs, J.obj [("error", Json.str (errName e))])
   | _ => .error s!"bad history step {j.compress}"
 
+def attrOf (j : Json) : Except String AttrVal :=
+  match j with
+  | .null => .ok .none
+  | _ =>
+    match j.getObjVal? "bool", j.getObjVal? "int", j.getObjVal? "real" with
+    | .ok b, _, _ => do .ok (.bool (← J.bool b))
+    | _, .ok z, _ => do .ok (.int (← J.int z))
+    | _, _, .ok q => do .ok (.real (← J.rat q))
+    | _, _, _ => .error "bad attribute value"
+
+def ofAttr : AttrVal → Json
+  | .none => Json.null
+  | .bool b => J.obj [("bool", Json.bool b)]
+  | .int z => J.obj [("int", J.ofInt z)]
+  | .real q => J.obj [("real", J.ofRat q)]
+  | .arr l => J.obj [("arr", J.ofList J.ofRat l)]
+
 def handle (op : String) (j : Json) : Option (Except String Json) :=
   match op with
   | "c20.print" => some do
@@ -78,6 +96,12 @@ def handle (op : String) (j : Json) : Option (Except String Json) :=
       .ok (J.ofList (fun (c, t) => Json.arr #[Json.bool c, ofStr t]) (numRequests s))
   | "c20.parse" => some do
       .ok (ofResult (initFromString (← parseCls (← J.field j "cls")) (← numTables j) (← strOf (← J.field j "s"))))
+  | "c20.attr" => some do
+      .ok (ofAttr (decodeAttr (← J.nat (← J.field j "kind")) (encodeAttr (← attrOf (← J.field j "value")))))
+  | "c20.float_int_model" => some do
+      match floatIntModel (← strOf (← J.field j "s")) with
+      | some v => .ok (J.ofGQ v)
+      | none => .ok Json.null
   | "c20.find_terms" => some do
       .ok (J.ofList (fun (a, b) => Json.arr #[ofStr a, ofStr b]) (findTerms (← strOf (← J.field j "s"))))
   | "c20.file_path" => some do
